@@ -170,7 +170,15 @@ func detBytes(seed int64, label string, n int) []byte {
 	return out[:n]
 }
 
-func domainOf(nm string) string { return "alias-" + nm + ".container" }
+// zoneOf: the model name n3 lives in a SECOND zone that is always spelled out (the alias fee and the record handling must not
+// depend on the zone being the contract's default root - thirteenth seeded batch, C05h); n1, n2 live in the default zone
+func zoneOf(nm string) string {
+	if nm == "n3" {
+		return "cdn"
+	}
+	return "container"
+}
+func domainOf(nm string) string { return "alias-" + nm + "." + zoneOf(nm) }
 
 func deployContainer(c *chain.Chain) util.Uint160 {
 	// Container's _deploy registers its alias TLD through NNS, which needs the committee witness; the
@@ -179,6 +187,8 @@ func deployContainer(c *chain.Chain) util.Uint160 {
 	nns, err := c.E.Chain.GetContractScriptHash(1)
 	require.NoError(c.T, err)
 	r := c.Run(nns, []neotest.Signer{c.Cmt}, "registerTLD", "container", "ops@nspcc.ru", int64(3600), int64(600), int64(3600*24*365*10), int64(3600))
+	require.True(c.T, r.Halt, r.Fault)
+	r = c.Run(nns, []neotest.Signer{c.Cmt}, "registerTLD", "cdn", "ops@nspcc.ru", int64(3600), int64(600), int64(3600*24*365*10), int64(3600))
 	require.True(c.T, r.Halt, r.Fault)
 	return c.DeployContainer()
 }
@@ -431,6 +441,9 @@ func (w *world) putCall(r *rand.Rand, c, vn, nm string, meta, kb bool) (string, 
 	w.putOffers[offerKey(c, b, asBytes(sig), pub, asBytes(tok))] = vn
 	switch {
 	case nm != "nil":
+		if zoneOf(nm) != "container" {
+			return "putNamed", []any{b, sig, pub, tok, "alias-" + nm, zoneOf(nm)}
+		}
 		return "putNamed", []any{b, sig, pub, tok, "alias-" + nm, []string{"", "container"}[r.Intn(2)]}
 	case meta:
 		return "put", []any{b, sig, pub, tok, true}
